@@ -283,6 +283,25 @@ def _random(spec, ctx, R):
                   site="_quat_to_components:sparse")
         c4t = S._quat_to_components(tuple(_comps(A)))
         ctx.check("components_roundtrip", all(_eq(c4t[t], refq.fa(A)[..., t]) for t in range(4)), site="_quat_to_components:tuple")
+        # the same four planes in the other containers a caller may hold them in (list, one stacked (4, m, n) array): a pass-through
+        for lab, cont in (("list", list(_comps(A))), ("stacked_ndarray", np.stack(_comps(A)))):
+            try:
+                c4x = S._quat_to_components(cont)
+                okx = len(c4x) == 4 and all(np.shape(c4x[t]) == (m, k) and _eq(np.asarray(c4x[t]), refq.fa(A)[..., t]) for t in range(4))
+            except Exception as e:
+                okx = False
+            ctx.check("components_roundtrip", okx, site="_quat_to_components:" + lab, detail={"shape": [m, k]})
+        # shapes in which a dimension coincides with the number of components (4): m = 4, n = 4, both
+        for (m4, n4) in ((4, 4), (3, 4), (4, 3), (4, 1), (1, 4), (6, 4)):
+            A4 = gen.entries(rng, "gauss", m4, n4)
+            for lab, cont in (("quaternion", A4.copy()), ("tuple", tuple(_comps(A4))), ("stacked_ndarray", np.stack(_comps(A4)))):
+                try:
+                    c4x = S._quat_to_components(cont)
+                    okx = len(c4x) == 4 and all(np.shape(c4x[t]) == (m4, n4) and _eq(np.asarray(c4x[t]), refq.fa(A4)[..., t]) for t in range(4))
+                    okx = okx and _eq(refq.fa(S._components_to_quat(*c4x)), refq.fa(A4))
+                except Exception as e:
+                    okx = False
+                ctx.check("components_roundtrip", okx, site="_quat_to_components:dimension_equals_4:" + lab, detail={"shape": [m4, n4]})
 
 
 def _misc(spec, ctx, R):
